@@ -8,6 +8,9 @@ CONSTANTS
   ReqCodes = {1}
   MaxReq = 1
   DhcpCaps = {300}
+  BigCode = 43
+  BigLens = {0}
+  IdClasses = {"rand", "carryLE", "carryBE", "carryHdr"}
   NICs = {"nicA", "nicB", "nicC"}
   Parts = {"send"}
 INVARIANTS Export ModelOK
